@@ -8,7 +8,8 @@ Bounded-exhaustive enumeration (DESIGN.md section 3, C12).  Layers:
            (plus bits above ncaps) x ncaps argument x {xyz, radec}
   window   is_in_window on every ordered list of <= 3 polygons from a menu, each list obtained through
            every storage route (in memory, copy constructor, .ply, FITS raw / converted incl. the one-cap
-           layouts, window_read(balkans=True)) x ncaps argument x {xyz, radec}
+           layouts, window_read(balkans=True) with the cap table laid out cumulatively / in reversed or rotated
+           polygon order / with unreferenced filler rows / with shared cap rows) x ncaps argument x {xyz, radec}
   usecaps  set_use_caps on every polygon of <= N caps from a duplicate-rich alphabet x every index list
            of length <= 3 x add/initial mask x allow_doubles x allow_neg_doubles
 
@@ -299,26 +300,77 @@ def write_fits(path, specs, layout):
     fits.BinTableHDU.from_columns(cols).writeto(path, overwrite=True)
 
 
-def write_balkans(d, specs):
+FILLER_CAP = [0.0, 0.0, 1.0, 1.0e-6]       # an unreferenced bcaps row; reading it would change almost every answer
+
+
+def balkans_layout(specs, layout):
+    """Rows of window_bcaps and the ICAP of each polygon for one storage layout of the same logical window.
+    'cum': cap blocks back to back in blist order; 'rev' / 'rot': blocks stored in reversed / rotated polygon order;
+    'fill': unreferenced rows before, between and after the blocks; 'shared': polygons with identical caps point
+    at the same rows."""
+    n = len(specs)
+    blocks = [[[float(v) for v in c] for c in s['caps']] for s in specs]
+    order = list(range(n))
+    if layout == 'rev':
+        order = order[::-1]
+    elif layout == 'rot':
+        order = order[1:] + order[:1]
+    rows, icap = [], [None] * n
+    if layout == 'shared':
+        seen = {}
+        for k in order:
+            key = tuple(tuple(c) for c in blocks[k])
+            if key not in seen:
+                seen[key] = len(rows)
+                rows.extend(blocks[k])
+            icap[k] = seen[key]
+        return rows, icap
+    if layout == 'fill':
+        rows.extend([FILLER_CAP, FILLER_CAP])
+    for j, k in enumerate(order):
+        icap[k] = len(rows)
+        rows.extend(blocks[k])
+        if layout == 'fill':
+            rows.extend([FILLER_CAP] * (1 + j % 2))
+    return rows, icap
+
+
+def balkans_layouts_for(specs):
+    """The layouts that differ from the cumulative one for this window."""
+    n = len(specs)
+    keys = [tuple(tuple(c) for c in s['caps']) for s in specs]
+    out = ['balkans', 'balkans-fill']
+    if n >= 2:
+        out.append('balkans-rev')
+    if n >= 3:
+        out.append('balkans-rot')
+    if len(set(keys)) < n:
+        out.append('balkans-shared')
+    return out
+
+
+def write_balkans(d, specs, layout='cum'):
     from astropy.table import Table
     n = len(specs)
     nc = np.array([len(s['caps']) for s in specs], dtype=np.int32)
-    icap = np.concatenate([[0], np.cumsum(nc)[:-1]]).astype(np.int32)
+    rows, icap = balkans_layout(specs, layout)
+    icap = np.array(icap, dtype=np.int32)
     bl = Table({'IPRIMARY': np.arange(n, dtype=np.int32), 'IBINDX': np.zeros(n, dtype=np.int32), 'NCAPS': nc,
                 'ICAP': icap, 'WEIGHT': np.ones(n), 'STR': np.ones(n)})
-    X = np.array([c[:3] for s in specs for c in s['caps']], dtype=np.float64).reshape(-1, 3)
-    C = np.array([c[3] for s in specs for c in s['caps']], dtype=np.float64)
+    X = np.array([c[:3] for c in rows], dtype=np.float64).reshape(-1, 3)
+    C = np.array([c[3] for c in rows], dtype=np.float64)
     bc = Table({'X': X, 'CM': C})
     bl.write(os.path.join(d, 'window_blist.fits'), overwrite=True)
     bc.write(os.path.join(d, 'window_bcaps.fits'), overwrite=True)
 
 
 FORMATS_MASK = ['mem', 'copy', 'fits-conv', 'fits-raw']     # routes that carry a use-mask
-FORMATS_NOMASK = ['ply', 'balkans']                         # routes that imply all caps
+FORMATS_NOMASK = ['ply']                                    # routes that imply all caps (+ balkans_layouts_for)
 ONECAP_FORMATS = ['fits1-conv', 'fits1-raw']                # MWRFITS one-cap layout (XCAPS 1-D per row)
 READER = {'mem': 'ManglePolygon', 'copy': 'ManglePolygon', 'fits-conv': 'read_fits_polygons',
           'fits-raw': 'read_fits_polygons', 'fits1-conv': 'read_fits_polygons', 'fits1-raw': 'read_fits_polygons',
-          'ply': 'read_mangle_polygons', 'balkans': 'window_read'}
+          'ply': 'read_mangle_polygons', 'balkans': 'window_read', 'balkans-fill': 'window_read',
+          'balkans-rev': 'window_read', 'balkans-rot': 'window_read', 'balkans-shared': 'window_read'}
 
 
 def make_polygon(spec):
@@ -347,9 +399,9 @@ def load_polys(fmt, specs, tmp):
         path = os.path.join(tmp, 'polygons.ply')
         write_ply(path, specs)
         return mng.read_mangle_polygons(path)
-    if fmt == 'balkans':
+    if fmt.startswith('balkans'):
         from pydl.photoop.window import window_read
-        write_balkans(tmp, specs)
+        write_balkans(tmp, specs, fmt.split('-')[1] if '-' in fmt else 'cum')
         old = os.environ.get('PHOTO_RESOLVE')
         os.environ['PHOTO_RESOLVE'] = tmp
         try:
@@ -733,7 +785,7 @@ def run_window(acc, task):
                     if max(len(s['caps']) for s in specs) == 1:
                         fmts += ONECAP_FORMATS
                     if full:
-                        fmts += FORMATS_NOMASK
+                        fmts += FORMATS_NOMASK + balkans_layouts_for(specs)
                     _run_window_group(acc, ids, full, specs, fmts, tmproot)
     finally:
         shutil.rmtree(tmproot, ignore_errors=True)
